@@ -490,7 +490,7 @@ let run_cmd toks =
   | [ cmd; outkind; flag; ak ] ->
       let prior = nl [ 9; 9; 9 ] in
       let out = match outkind with
-        | "absent" -> Absent | "regular" -> Reg prior
+        | "absent" -> Absent | "regular" -> Reg prior | "regular-empty" -> Reg [] | "regular-long" -> Reg (nl [ 3; 3; 3; 3; 3; 3; 3; 3; 3; 3; 3; 3; 3; 3; 3; 3 ])
         | "blockdev-small" -> Blk (nl [ 7; 7; 7; 7; 7 ]) | _ -> Blk (nl [ 7; 7; 7; 7; 7; 7; 7; 7; 7; 7; 7; 7; 7; 7; 7 ]) in
       let st =
         if cmd = "clone" then
